@@ -190,6 +190,10 @@ pub struct World {
     pub raw_outputs: bool,
     pub child_panics: u64,
     pub inexact_iter: bool,
+    /// merge sources report honest size hints instead of the default (0, None)
+    pub src_hints: bool,
+    pub zst_created: i64,
+    pub zst_dropped: i64,
 }
 
 pub const NFAULT: usize = 17;
@@ -270,6 +274,9 @@ impl World {
             raw_outputs: false,
             child_panics: 0,
             inexact_iter: false,
+            src_hints: false,
+            zst_created: 0,
+            zst_dropped: 0,
         }
     }
 
